@@ -39,17 +39,25 @@ CHECKS = {
        "children, cancels none, slots results by input index; isinstance = the issubclass table of the six classes.",
   tech="Lean 4 proof (slot-array invariant over any completion permutation) + virtual-time differential", ref="§5 C20"),
  "C04": dict(
-  text="Lean theorems about the batcher machine (Batcher/Model.lean): C04_outcome (for every batch dict, script and "
-       "result order the key's future is resolved exactly once, with the independently written specOutcome), "
-       "C04_no_cross_key, C04_always_answers (+ behaviourGo_ends: the harness batch function always ends). The machine "
-       "(queue, assembly, FIFO semaphore, retention, cancellation; the same actStep the theorems are about) is tied to "
-       "AsyncBackgroundBatcher by a virtual-time differential on random timed programs; an independent monitor "
-       "judges every real execution (outcome = first-yield reading, nobody pending for ever)",
-  note=NOTE_COMMON + "Partial: the theorems cover what a batch gives each of its keys (per-batch, untimed); that "
-       "every caller is attached to the batch carrying its key and that every batch is eventually run is validated "
-       "by the correspondence run and the monitor, not proved. asyncio Queue/Semaphore/Future/shield semantics assumed.",
-  tech="Lean 4 proof (induction over the batch script against an independent spec) + virtual-time "
-       "model/implementation differential + outcome monitor", ref="§5 Batcher"),
+  text="Lean theorems about the batcher machine (Batcher/Model.lean). Per batch: C04_outcome (for every batch dict, "
+       "script and result order the key's future is resolved exactly once, with the independently written "
+       "specOutcome), C04_no_cross_key, C04_always_answers (+ behaviourGo_ends), and C04_pump_is_runScript (the timed "
+       "machine's pump performs exactly runScript's resolutions). Run level, for every program of calls / "
+       "cancellations / max_batch_size mutations from a fresh batcher (Batcher/Answer.lean, invariant W on top of "
+       "the C11 invariant R): C04_waiters_are_in_flight(_prefix) - a caller is suspended only on an unresolved "
+       "future whose item is queued / being assembled / waiting for a slot or whose key is still unanswered in a "
+       "running batch whose script ends with fin or raise; C04_every_call_is_served - whoever called is suspended "
+       "or has a done event; C04_all_answered_at_rest - when nothing is in flight nobody is pending and every call "
+       "has its done event. The machine is tied to AsyncBackgroundBatcher by a virtual-time differential on random "
+       "timed programs; an independent monitor judges every real execution (outcome = first-yield reading, nobody "
+       "pending for ever)",
+  note=NOTE_COMMON + "Partial: that the outcome recorded for a caller's future is specOutcome of the very batch that "
+       "carried its key is proved per batch and tied to the run by pump_is_runScript, but not stated as one run-level "
+       "theorem (it would need a ghost log of scripts); that the pipeline drains (timers, fuel) is the liveness half, "
+       "validated by the correspondence run and the monitor. asyncio Queue/Semaphore/Future/shield semantics assumed.",
+  tech="Lean 4 proof (induction over the batch script against an independent spec; inductive invariant over all "
+       "input programs for 'nobody waits for nothing') + virtual-time model/implementation differential + outcome "
+       "monitor", ref="§5 Batcher"),
  "C09": dict(
   text="Lean theorem C09_cancellations_invisible (Batcher/Cancel.lean + Props.lean): for every set X of callers, every "
        "starting state and any two programs of timed inputs that differ only in which callers of X are cancelled at "
